@@ -76,7 +76,7 @@ func runC11(c *Ctx) {
 	patchT := c.NamedTypeIn(jsonPatchPkg, "Patch")
 	var V *ssa.Function
 	for _, f := range c.Funcs {
-		if f.Pkg.Pkg.Path() != modPkg+pPV {
+		if pkgPathOf(f) != modPkg+pPV {
 			continue
 		}
 		forEachInstr(f, func(in ssa.Instruction) {
